@@ -579,10 +579,7 @@ def closed_param(rng, sol, k):
     if k == 'm':
         return sgn(rng) * u(0.5, 3.0)
     if k in ('sigma', 'sigma_d'):
-        # over seven decades (the decade is derived from the draw itself): a vague prior with precise data, or the reverse,
-        # is where an algebraically equivalent rewrite of the posterior moments cancels
-        v = u(0.5, 2.5)
-        return v * 10.0 ** ((int(v * 4096) % 7 - 3) if int(v * 64) % 3 else 0)
+        return u(0.5, 2.5)
     return sgn(rng) * u(0.5, 3.0)
 
 
@@ -612,7 +609,8 @@ def value_point(rng, sol, sig, vals=None):
         pt = []
         for i in range(n):
             if i >= nsp:
-                pt.append(exact_double(rng, 0.0, 2.0)); continue
+                # (a tiny length scale scales the time too: the Burgers fields take t / L)
+                pt.append(exact_double(rng, 0.0, 2.0) * (min(vals[k] for k in lens) if min(vals[k] for k in lens) < 2.0 ** -10 else 1.0)); continue
             L = vals[lens[i % len(lens)]]
             s = 1.0 if sol.startswith('axi') and i == 0 else sgn(rng)
             pt.append(s * L * (1.0 - 2.0 ** -rng.randint(4, 30)))
@@ -726,6 +724,11 @@ def gen_values(rng, sol, precs=('d', 'ld'), nassign=2, npts=3, evaluators=None, 
         vals = {k: pick(rng, sol, k) for k in e['pars']}
         if mix:
             vals = scale_mix(rng, sol, vals, ai)
+        if sol == 'cp_normal' and ai % 2 == 1:
+            # a vague prior with precise data (sigma / sigma_d ~ 10^6) and the reverse, alternating: where an algebraically
+            # equivalent rewrite of the posterior moments (1 - K, K = n s^2 / (n s^2 + s_d^2)) cancels
+            big, small = ('sigma', 'sigma_d') if ai % 4 == 1 else ('sigma_d', 'sigma')
+            vals[big] *= 1024.0; vals[small] /= 1024.0
         if zero_plan:
             for k in zero_plan[ai]:
                 vals[k] = 0.0
@@ -983,6 +986,37 @@ def gen_init_orders(rng, variant='exc', alloc=False, fill=None):
 
 
 COORD_LETTERS = {'axi': 'rz', 'cart': 'xyz'}
+
+
+def gen_unknown_handles(variant='exc'):
+    """C16: selecting a handle that is not registered is fatal in EVERY registry state and for every spelling: the empty
+    string, a blank, a registered handle in another case / with a blank appended / cut short, a very long one -- on a
+    registry that never saw an init, on one where only the other precision did, with one and with two handles registered.
+    exc build: one process per history, the walk continues after each caught failure (sweeps in between);
+    exit build: one process per (history, spelling)."""
+    hist = {'never': [], 'other-precision-only': [['init', 'Q', 'cxx', 'a', 'euler_1d']],
+            'one': [['init', 'P', 'cxx', 'a', 'euler_1d'], ['setp', 'P', 'cxx', 'u_0', hexf(2.5)]],
+            'two': [['init', 'P', 'cxx', 'a', 'euler_1d'], ['init', 'P', 'cxx', 'Bb', 'laplace_2d'], ['init', 'Q', 'cxx', 'a', 'euler_2d']]}
+    unknown = ['', ' ', 'A', 'a ', ' a', 'bb', 'B', 'Bb ', 'a' * 300, 'a\tb', '-']
+    out = []
+    for hn, H in sorted(hist.items()):
+        for p, api in (('d', 'cxx'), ('ld', 'cxx'), ('d', 'c')):
+            q = 'ld' if p == 'd' else 'd'
+            pre = [[(p if x == 'P' else q if x == 'Q' else x) for x in l] for l in H]
+            regd = [(l[3], l[4]) for l in pre if l[0] == 'init' and l[1] == p]
+            if variant == 'exc':
+                S = list(pre)
+                for u in unknown:
+                    S.append(['select', p, api, u])
+                    S.append(['list', p, 'cxx'])
+                    if regd:
+                        S += [['name', p, 'cxx'], ['getp', p, 'cxx', CAT[regd[-1][1]]['pars'][0]]]
+                S += sweep(regd, p, None, restore=False) if regd else []
+                out.append(Execution(S, variant='exc', label='unknown-handles:%s:%s:%s' % (hn, p, api)))
+            else:
+                for u in unknown[:6]:
+                    out.append(Execution(list(pre) + [['select', p, api, u]], variant='exit', label='unknown-handle-exit:%s:%s:%s' % (hn, p, api)))
+    return out
 
 
 def gen_twins(rng, sol, variant='exc'):
